@@ -24,6 +24,7 @@ RULE = (
     "boundary/EOF, or an out-of-range request. A scale lane runs every history seek(q,0); seek(p-q,1); read; cread(2); seek(-1,1); creadinto(3) over a "
     "reduced alphabet (positions at/around every boundary, reads to/over every boundary, 65537 items) on five member files of 0.5-1 M items"
 )
+SCALE_LANE = 'five member files of 524288/32/960000/755680/32 items per depth: every history seek(q,0); seek(p-q,1); read; cread(2); seek(-1,1); creadinto(3) over positions at/around every boundary and reads to/over every boundary and of 65537 items; one file set of 20 MiB + 5 MiB with reads of 16 MiB, 16 MiB + 1, to and over the boundary'
 ASSUMPTIONS = [
     "the mutable state of FileReader is (ifile_cur, file_obj position); asserted from vars(reader) at start-up, any extra attribute is folded into the state key",
     "per-file data lengths are whole items (a file ending inside a 16/32-bit item is malformed and out of scope)",
